@@ -113,7 +113,9 @@ def gls(case, xs, ys, fb, priors, ctx=None, snap=None):
     yv = np.array([o.value for o in yobs])
     # the weights are frozen at the errors present when the fit was called (snapshot taken before the call)
     dy = np.array([snap['dy'][id(o)] for o in yobs]) if snap else np.array([o.dvalue for o in yobs])
-    if case['correlated']:
+    if case['correlated'] and snap and 'W_user' in snap:
+        W = snap['W_user']       # the user's inverse covariance L^T L, in the oracle's order of points
+    elif case['correlated']:
         corr = snap['corr'] if snap else pe.covariance(yobs, correlation=True)
         cov = np.diag(dy) @ corr @ np.diag(dy)
         W = np.linalg.inv(cov)
@@ -239,6 +241,34 @@ def check_case(ctx, case):
         snap = {'dy': {id(o): float(o.dvalue) for o in allpts_}}
         if case['correlated']:
             snap['corr'] = pe.covariance(allpts_, correlation=True)
+        if case['correlated'] and case.get('user_chol'):
+            # a user-supplied inverse covariance: [L, keys] with L lower triangular, L^T L = C^-1, rows in the order
+            # in which the points are handed over (single fit) / in the order of the listed keys (combined fit)
+            from scipy.linalg import solve_triangular
+            n_ = len(allpts_)
+            rngu = np.random.RandomState(case['seed'] % 77777)
+            B_ = rngu.normal(size=(n_, n_))
+            C_ = B_ @ B_.T + n_ * np.eye(n_)
+            dd_ = np.sqrt(np.diag(C_))
+            corr_u = C_ / np.outer(dd_, dd_)
+            dy_u = np.array([snap['dy'][id(o)] for o in allpts_]) * rngu.uniform(0.7, 1.5, size=n_)
+            if case['combined']:
+                listed = keys if case['user_chol'] == 'ok' else keys[::-1]
+                start, off_ = {}, 0
+                for k_ in keys:
+                    start[k_] = off_
+                    off_ += len(ys[k_])
+                order_idx = [start[k_] + j for k_ in listed for j in range(len(ys[k_]))]
+            else:
+                listed = ['']
+                order_idx = list(p) if (case['perm'] and not case.get('via_corr')) else list(range(n_))   # a correlator is fitted in timeslice order
+            corr_h = corr_u[np.ix_(order_idx, order_idx)]
+            L_ = solve_triangular(np.linalg.cholesky(corr_h), np.diag(1 / dy_u[order_idx]), lower=True)
+            kw['inv_chol_cov_matrix'] = [L_, listed]
+            W_ = np.zeros((n_, n_))
+            W_[np.ix_(order_idx, order_idx)] = L_.T @ L_
+            snap['W_user'] = W_
+            ctx.count('user-supplied-inverse-covariance:' + case['user_chol'])
         if case.get('via_corr') and not case['combined']:
             T_ = int(x[-1]) + 2 if not case['perm'] else int(max(x)) + 2
             xo, yo_ = (xs[keys[0]], ys[keys[0]])
@@ -257,6 +287,11 @@ def check_case(ctx, case):
             if 'Cannot invert correlation matrix' in str(e):
                 # more points than configurations: the estimated correlation matrix is singular and the library refuses
                 ctx.count('refused:singular-correlation-matrix')
+                return probs
+            if case.get('user_chol') == 'listed_order' and isinstance(e, ValueError) and 'keys of inverse covariance matrix' in str(e):
+                # keys listed in another than alphabetical order: refused (accepting them is fine only if the result is
+                # the closed form for the matrix as labelled, which is checked below when the call goes through)
+                ctx.count('refused:key-order-of-supplied-matrix')
                 return probs
             if 'did not converge' in str(e):
                 # the minimiser reports its own failure: no result to judge (contract of the external engine)
@@ -321,6 +356,8 @@ def gen_case(ctx):
             'corr': rng.choice([0.0, 0.5, 1.5]), 'method': rng.choice(['LM', 'LM', 'LM', 'migrad', 'Nelder-Mead', 'Powell']),
             'correlated': rng.random() < 0.3, 'num_grad': rng.random() < 0.2, 'perm': rng.random() < 0.5, 'priors': rng.random() < 0.4}
     case['S_data'] = rng.choice([2.0, 2.0, 0.0, 4.0])
+    if case['correlated'] and rng.random() < 0.5:
+        case['user_chol'] = 'listed_order' if (combined and rng.random() < 0.5) else 'ok'
     case['via_corr'] = (not combined) and b == 'poly' and rng.random() < 0.4
     if case['via_corr']:
         case['ens'] = case['ens'][:1]       # a correlator needs all timeslices on the same chains
